@@ -496,19 +496,47 @@ func C36(c *Ctx) {
 	canRm := Named("lsm.(*levelManager).canRemoveWalSegment")
 	if fn := c.Fn("lsm", "levelManager.flush"); fn != nil {
 		les := Calls(fn, false, Named("manifest.(*Manager).LogEdits"))
-		sites := need(c, r2, fn, false, "RemoveSegment", rm, 2)
-		for i, s := range sites {
+		isRm := func(ci ssa.CallInstruction) bool { return rm(ci.Common()) }
+		sites := effectSites(c, fn, isRm, 3)
+		c.Decide(len(sites) >= 1, r2, key(fn, "has:RemoveSegment"), fn.Pos(), len(sites)+1, fmt.Sprintf("%d removal site(s)", len(sites)), "flush no longer removes the flushed memtable's WAL segment (directly or through a helper)")
+		// chain(f, site): guards that hold for every RemoveSegment executed under site, looking through
+		// same-package helpers and deferred closures.  A deferred site runs on every exit, so nothing
+		// established at the defer statement holds for it.
+		var chain func(f *ssa.Function, s ssa.CallInstruction, depth int) (lsm, raft, id bool)
+		chain = func(f *ssa.Function, s ssa.CallInstruction, depth int) (bool, bool, bool) {
 			in := s.(ssa.Instruction)
-			empty, _ := guardedByCall(fn, in, MethodNamed("utils.Iterator", "Valid"), false)
-			lsmOK := empty
-			if !empty {
-				lsmOK = succOKq(fn, les, in)
+			_, deferred := in.(*ssa.Defer)
+			var l, r bool
+			if !deferred {
+				l, _ = guardedByCall(f, in, MethodNamed("utils.Iterator", "Valid"), false)
+				if !l {
+					l = succOKq(f, Calls(f, false, Named("manifest.(*Manager).LogEdits")), in)
+				}
+				r, _ = guardedByCall(f, in, canRm, true)
 			}
-			raftOK, _ := guardedByCall(fn, in, canRm, true)
-			c.Decide(lsmOK, r2, key(fn, fmt.Sprintf("RemoveSegment[%d]#G-lsm", i+1)), s.Pos(), 2, "LSM guard present (empty memtable or manifest edit succeeded)", "RemoveSegment without an LSM-flushed guard")
+			if isRm(s) {
+				arg := s.Common().Args[len(s.Common().Args)-1]
+				return l, r, derivedFromField(arg, "lsm.memTable", "segmentID", 5) || derivedFromParamOrFree(arg, 5)
+			}
+			h := StaticFn(s.Common())
+			if h == nil || depth <= 0 {
+				return false, false, false
+			}
+			al, ar, ai := true, true, true
+			for _, s2 := range effectSites(c, h, isRm, depth-1) {
+				l2, r2, i2 := chain(h, s2, depth-1)
+				al, ar, ai = al && (l || l2), ar && (r || r2), ai && i2
+			}
+			return al, ar, ai
+		}
+		_ = les
+		for i, s := range sites {
+			_, deferred := s.(*ssa.Defer)
+			lsmOK, raftOK, idOK := chain(fn, s, 3)
+			c.Decide(lsmOK, r2, key(fn, fmt.Sprintf("RemoveSegment[%d]#G-lsm", i+1)), s.Pos(), 2, "LSM guard present (empty memtable or manifest edit succeeded)", "a WAL segment can be removed without the LSM-flushed guard (manifest edit not known to have succeeded"+ifs(deferred, "; the removal is deferred and runs on the failure exits too", "")+"): acknowledged writes that live only in that segment are lost on restart")
 			c.Decide(raftOK, r2, key(fn, fmt.Sprintf("RemoveSegment[%d]#G-raft", i+1)), s.Pos(), 2, "raft guard present (canRemoveWalSegment)", "RemoveSegment without the raft-pointer guard (canRemoveWalSegment): raft log records in the shared segment can be deleted before the group truncated them")
 			// the removed id is this memtable's segment
-			c.Decide(derivedFromField(s.Common().Args[len(s.Common().Args)-1], "lsm.memTable", "segmentID", 5), r2, key(fn, fmt.Sprintf("RemoveSegment[%d]#id=segmentID", i+1)), s.Pos(), 1, "removes the flushed memtable's own segment", "RemoveSegment's id is not the flushed memtable's segmentID")
+			c.Decide(idOK, r2, key(fn, fmt.Sprintf("RemoveSegment[%d]#id=segmentID", i+1)), s.Pos(), 1, "removes the flushed memtable's own segment", "RemoveSegment's id is not the flushed memtable's segmentID")
 		}
 	}
 	if fn := c.Fn("lsm", "LSM.recovery"); fn != nil {
@@ -600,6 +628,33 @@ func derivedFromField(v ssa.Value, owner, field string, depth int) bool {
 	return false
 }
 
+// derivedFromParamOrFree: v is (a conversion of) a parameter or captured variable of a helper —
+// the id was chosen by the caller, whose own argument is checked at its frame.
+func derivedFromParamOrFree(v ssa.Value, depth int) bool {
+	if depth <= 0 {
+		return false
+	}
+	switch x := Unwrap(v).(type) {
+	case *ssa.Parameter:
+		return true
+	case *ssa.FreeVar:
+		return true
+	case *ssa.UnOp:
+		if x.Op == token.MUL {
+			_, isFree := x.X.(*ssa.FreeVar)
+			return isFree
+		}
+	case *ssa.Phi:
+		for _, e := range x.Edges {
+			if !derivedFromParamOrFree(e, depth-1) {
+				return false
+			}
+		}
+		return true
+	}
+	return false
+}
+
 // rangesOverField: v is an element loaded from (a reslice of) owner.field.
 func rangesOverField(v ssa.Value, owner, field string, depth int) bool {
 	if depth <= 0 {
@@ -635,6 +690,10 @@ func rangesOverField(v ssa.Value, owner, field string, depth int) bool {
 
 func C37(c *Ctx) {
 	c.Note("termination itself; lock-order cycles across goroutines; channel capacity arguments; fairness")
+	const r0 = "K13.commit-mark-released"
+	c.Rule(r0, "after a successful newCommitTs every continuation of Txn.commitAndSend marks exactly that timestamp done (doneCommit(commitTs) on the send-error return and in the completion callback after request.Wait): a begun commit timestamp that is never marked done stops txnMark, and every later oracle.readTs — and Close — waits forever")
+	doneCommitPairing(c, r0)
+	entryRefOwnershipGroup(c, "K13.entry-ref-ownership")
 	const r1 = "K1.close-guarded-waits"
 	c.Rule(r1, "every indefinite wait on the write path has a close-guarded exit: sendToWriteCh's throttle loop tests isClosed/commitQueue.closed; commitQueue.acquireSpace selects on closeCh; acquireItem returns when closed and drained; pop returns nil when closed and empty; commitWorker exits on a nil batch and releases commitWG; every commitWorker path that took a batch acknowledges it (wg.Done reaches every request)")
 	if fn := c.Fn("", "DB.sendToWriteCh"); fn != nil {
